@@ -98,6 +98,10 @@ func gen(transports []string) func(t *rapid.T) Case {
 			c.Cfg.CSend = "gzip"
 		}
 		c.Err.Msg = msgGen(t)
+		if c.Transport != "h1" && rapid.IntRange(0, 15).Draw(t, "hugeMsg") == 0 {
+			// an error body well beyond any "small error" assumption
+			c.Err.Msg = strings.Repeat("long error text ", rapid.SampledFrom([]int{4200, 6400, 20000}).Draw(t, "hugeLen"))
+		}
 		if c.Transport == "h1" && len(c.Err.Msg) > 300 {
 			// net/http's HTTP/1 transport refuses trailers longer than a few KiB
 			// ("suspiciously long trailer"); that limit is not connect-go's
